@@ -261,7 +261,9 @@ class Driver:
             pfam.evalue = 2.5e-12
             pfam.label = "ketoacyl-synt"
             pfam.translation = cds.translation[0:third]
-            pfam.gene_ontologies = GOQualifier({"GO:0016746": "acyltransferase activity", "GO:0008152": "metabolic process"})
+            pfam.gene_ontologies = GOQualifier({"GO:0016746": "acyltransferase activity", "GO:0008152": "metabolic process",
+                                                 # (a term whose name holds a colon itself)
+                                                 "GO:0005890": "sodium:potassium-exchanging ATPase complex"})
             record.add_pfam_domain(pfam)
             motif = CDSMotif(self._sub(cds, 1, min(aminos, 4)), name, FeatureLocation(1, min(aminos, 4)), tool="motif_tool")
             motif.domain_id = f"motif_{name}_1"
